@@ -425,6 +425,8 @@ func checkC04(c *Ctx) {
 		"{msg desc=\"d\"}{plural $n}{case 1}single{default}many{/plural}{/msg}",
 		"{foreach $i in $l}{msg desc=\"d\"}item {$i}{/msg};{/foreach}",
 		"{msg desc=\"d\"}call {call .sub data=\"all\"/} end{/msg}",
+		"[{call .withmsg data=\"all\"/}]{foreach $i in $l}{call .withmsg}{param a: $i /}{/call}{/foreach}",
+		"{let $w}{call .withmsg data=\"all\"/}{/let}{$w|noAutoescape}{call .relay data=\"all\"/}",
 	}
 	mdatas := []data.Map{
 		{"a": data.String("A<"), "b": data.String("B&"), "n": data.Int(0), "l": data.List{data.Int(1), data.Int(2)}},
@@ -449,7 +451,8 @@ func checkC04(c *Ctx) {
 				if ns != "" {
 					nsattr = " autoescape=\"" + ns + "\""
 				}
-				src := "{namespace m" + nsattr + "}\n/**\n * @param? a\n * @param? b\n * @param? n\n * @param? l\n */\n{template .t}\n" + mb + "{if false}{$a}{$b}{$n}{$l}{/if}\n{/template}\n/** @param? a */\n{template .sub}\n[{$a ?: 'na'}]\n{/template}\n"
+				src := "{namespace m" + nsattr + "}\n/**\n * @param? a\n * @param? b\n * @param? n\n * @param? l\n */\n{template .t}\n" + mb + "{if false}{$a}{$b}{$n}{$l}{/if}\n{/template}\n/** @param? a */\n{template .sub}\n[{$a ?: 'na'}]\n{/template}\n" +
+					"/** @param? a */\n{template .withmsg}\n{msg desc=\"in callee\"}callee {$a ?: 'na'} text <b>bold</b>{/msg}\n{/template}\n/** @param? a */\n{template .relay}\nr:{call .withmsg data=\"all\"/}\n{/template}\n"
 				var ds []data.Map
 				for _, d := range mdatas {
 					if strings.Contains(mb, "$a.k") != (kindOf(d["a"]) == "map") {
